@@ -127,33 +127,57 @@ func realSymtab(ops []string) string {
 	return strings.Join(out, " ") + " | " + strings.Join(sts, " ")
 }
 
-// symtabOracle checks the property directly on the real table: among simultaneously
-// resolvable names, distinct local symbols have distinct indices.
+// symtabSharing checks the property directly on the real table, op by op: the variables that are alive — every
+// variable defined in a scope that is still open, also one that is shadowed by an inner variable of the same name —
+// have pairwise distinct slots; and among simultaneously resolvable names distinct symbols have distinct slots.
 func symtabSharing(ops []string) string {
 	st := bytecode.NewSymbolTable()
-	depth := 0
+	type live struct{ name, slot string }
+	frames := [][]live{{}}
 	names := map[string]bool{}
+	slotOf := func(s bytecode.Symbol) string { return fmt.Sprintf("%s:%d", s.Scope, s.Index) }
 	for i := 0; i < len(ops); i++ {
 		switch ops[i] {
 		case "push":
 			st = st.Push()
-			depth++
+			frames = append(frames, []live{})
 		case "pop":
-			if depth > 0 {
-				depth--
+			if n := st.Pop(); n != st {
+				frames = frames[:len(frames)-1]
+				st = n
 			}
-			st = st.Pop()
 		case "define":
 			i++
-			st.Define(ops[i])
+			s := st.Define(ops[i])
 			names[ops[i]] = true
+			cur := &frames[len(frames)-1]
+			redefined := false
+			for k := range *cur {
+				if (*cur)[k].name == ops[i] {
+					(*cur)[k].slot, redefined = slotOf(s), true // the same variable of this scope again
+				}
+			}
+			if !redefined {
+				*cur = append(*cur, live{ops[i], slotOf(s)})
+			}
 		case "resolve":
 			i++
+			st.Resolve(ops[i])
+		}
+		seenLive := map[string]string{}
+		for d, f := range frames {
+			for _, v := range f {
+				who := fmt.Sprintf("%s (scope depth %d)", v.name, d)
+				if o, dup := seenLive[v.slot]; dup {
+					return fmt.Sprintf("slot %s is given to two variables that are alive at the same time: %s and %s, after op %d", v.slot, o, who, i)
+				}
+				seenLive[v.slot] = who
+			}
 		}
 		seen := map[string]string{}
 		for n := range names {
 			if s, ok := st.Resolve(n); ok {
-				key := fmt.Sprintf("%s:%d", s.Scope, s.Index)
+				key := slotOf(s)
 				if o, dup := seen[key]; dup {
 					return fmt.Sprintf("slot %s shared by %s and %s after op %d", key, o, n, i)
 				}
@@ -293,6 +317,11 @@ func c17Fixed() []string {
 			}
 		}
 	}
+	// shadowing declarations that read the shadowed variable (resolve, then define the same name in the inner scope)
+	out = append(out,
+		"x := 1\nif true\n    x := x + 1\n    x = x\nend\nx = x\n",
+		"x := 1\nw := 0\nwhile w < 2\n    w = w + 1\n    y := x\n    x := y + x\n    x = x\nend\nx = x\n",
+		"x := 1\nfor i := range 2\n    x := x + i\n    if true\n        x := x + 1\n        x = x\n    end\n    x = x\nend\nx = x\n")
 	// breaks before and after nested loops
 	out = append(out, "x := 0\nfor i := range 3\n    if i == 1\n        break\n    end\n    for j := range 3\n        if j == 1\n            break\n        end\n        x = x + 1\n    end\n    x = x + i\nend\nx = x\n")
 	out = append(out, "x := 0\nw := 0\nwhile w < 3\n    w = w + 1\n    if w == 2\n        break\n    end\n    while x < 10\n        x = x + 1\n        if x > 3\n            break\n        end\n    end\nend\nx = x\n")
